@@ -67,13 +67,18 @@ Qed.
    oracle (and, where modelled, by the model-vs-code correspondence) only. *)
 
 (* one SELECT statement: DISTINCT [ON (...)], select list with aliases, `*` and `t.*`, FROM list with qualified names and aliases,
-   joins of every kind with ON / USING, WHERE, GROUP BY with plain expressions, ROLLUP (...) and CUBE (...), HAVING, ORDER BY
-   with direction and NULLS FIRST | LAST, LIMIT, OFFSET, FETCH {FIRST | NEXT} n [PERCENT] [ROW | ROWS] {ONLY | WITH TIES};
+   joins of every kind with ON / USING, WHERE, GROUP BY with plain expressions, ROLLUP (...), CUBE (...) and GROUPING SETS
+   ( set, ... ) (a set = a possibly empty parenthesised expression list, or a column reference without parentheses), HAVING, ORDER BY
+   with direction and NULLS FIRST | LAST, LIMIT, OFFSET, FETCH {FIRST | NEXT} n [PERCENT] [ROW | ROWS] {ONLY | WITH TIES}, the locking
+   clause FOR {UPDATE | NO KEY UPDATE | SHARE | KEY SHARE} [OF table, ...] [NOWAIT | SKIP LOCKED];
    every parenthesisation choice [sr] of every expression; for the tree as it is ([tree_flags], switch
    [d_no_alias_after_column] on) under the side condition that no alias without AS follows a bare column reference, for
    the repaired configuration without it.
-   Omitted clauses: SELECT ALL, derived tables, LATERAL, GROUPING SETS, MySQL WITH ROLLUP, FOR, sub-query
-   expressions, window functions (FILTER / OVER / WITHIN GROUP). *)
+   The follow token is not spelled OF / NOWAIT / SKIP (the locking clause is read by the text of its words).
+   Omitted clauses: SELECT ALL, derived tables, LATERAL, MySQL WITH ROLLUP, sub-query expressions, window functions
+   (FILTER / OVER / WITHIN GROUP); a grouping set without parentheses that is not a column reference (PostgreSQL extension;
+   the parser takes the parenthesis of `( a + b ) * c` for the parenthesis of a set - Example [gs_bare_expression_rejected]
+   of Proofs/StmtParseP.v). *)
 Theorem C03_parse_render_select_partial :
   forall md sf fuel (sr : srho) s stop d,
     select_ok s = true -> (d_no_alias_after_column sf = false \/ select_bare_alias_free s = true) ->
@@ -88,12 +93,15 @@ Print Assumptions C03_parse_render_select_partial.
 (* every reference statement of Spec/RefStmt.v: [WITH [RECURSIVE] ctes] followed by a query expression (SELECTs combined
    by UNION | EXCEPT | INTERSECT [ALL], left-nested), INSERT (column list, VALUES rows | query, ON CONFLICT [(columns) | ON
    CONSTRAINT name] DO NOTHING | DO UPDATE SET ... [WHERE ...], RETURNING), UPDATE (SET,
-   WHERE, RETURNING) or DELETE (WHERE, RETURNING); CTEs with column lists, [NOT] MATERIALIZED and query bodies.  One
+   WHERE, RETURNING) or DELETE (WHERE, RETURNING); CTEs with column lists, [NOT] MATERIALIZED and query bodies; MERGE [INTO]
+   target [[AS] alias] USING source [[AS] alias] ON condition followed by any number (>= 1) of WHEN clauses, each kind x action
+   pair of the documented table (MATCHED -> UPDATE SET [t.]c = e, ... | DELETE; NOT MATCHED -> INSERT [(columns)] VALUES (e, ...) |
+   INSERT [(columns)] DEFAULT VALUES; NOT MATCHED BY SOURCE -> UPDATE SET ... | DELETE), each with or without AND condition.  One
    equation: accepted, nothing beyond the statement consumed, the whole tree equal to the prescribed one (WITH on the
    left-most SELECT of a set operation, JOIN attached to the last FROM item, ...).
    Omitted (besides the SELECT clauses listed above): ORDER BY / LIMIT on operands of set operations (known finding
-   `setop-trailing-order-by`), CTE bodies other than queries, nested WITH, ON DUPLICATE KEY, UPDATE ... FROM,
-   DELETE ... USING, MERGE, DDL, the MySQL dialect. *)
+   `setop-trailing-order-by`; likewise the locking clause), CTE bodies other than queries, nested WITH, ON DUPLICATE KEY,
+   UPDATE ... FROM, DELETE ... USING, a derived table as MERGE source (the parser reads a table name there), DDL, the MySQL dialect. *)
 Theorem C03_parse_render_stmt_partial :
   forall md sf fuel (sr : srho) s stop d,
     stmt_ok s = true -> (d_no_alias_after_column sf = false \/ stmt_bare_alias_free s = true) ->
@@ -118,6 +126,18 @@ Example C03_select_nonvacuous :
 Proof.
   split; [reflexivity|]. split; [reflexivity|]. split; [eexists _, _; split; reflexivity|apply ex_select_parse].
 Qed.
+
+Example C03_select_lock_nonvacuous :
+  select_ok ex_select_lock = true /\ select_bare_alias_free ex_select_lock = true
+  /\ parse_statement_top tree_flags (render_select (fun _ _ => no_parens) ex_select_lock ++ [Tk TyEOF ""%string])
+     = Val (GSelectS (ast_of_select ex_select_lock), [Tk TyEOF ""%string]).
+Proof. split; [reflexivity|]. split; [reflexivity|apply ex_select_lock_parse]. Qed.
+
+Example C03_stmt_merge_nonvacuous :
+  stmt_ok ex_stmt_merge = true
+  /\ parse_statement_top tree_flags (render_stmt (fun _ _ => no_parens) ex_stmt_merge ++ [Tk TyEOF ""%string])
+     = Val (ast_of_stmt ex_stmt_merge, [Tk TyEOF ""%string]).
+Proof. split; [reflexivity|apply ex_stmt_merge_parse]. Qed.
 
 Example C03_stmt_nonvacuous :
   stmt_ok ex_stmt_with = true /\ stmt_ok ex_stmt_insert = true /\ stmt_follow [Tk TyEOF ""%string]
